@@ -105,8 +105,8 @@ CLAIMED["C17"] = {
 }
 
 CLAIMED["C15"] = {
-    "text": "Lean theorems over the loader/merge model: every source that is ever loaded - for ANY file graph, cyclic or not, and any running time of the loader - has a repetition-free chain of files leading to it (a cyclic import or module chain is never followed) of length depth+1, hence nesting is bounded by the number of files; a reference back into the chain is reported as circular for import and mod alike; missing optional edges are ignored and plain ones are errors; the duplicate-resolution table keeps each name exactly once with a definition of MINIMAL depth among all definitions processed (shallower wins) and every definition is represented; a module's recipes come only from files of its own import closure and every file of the closure contributes. Correspondence: random file graphs with 2-3 (quick) / 2-5 (thorough) files over import / import? / mod / mod? edges, self and mutual cycles, diamonds, edges to missing files, shared names in any file, allow-duplicate settings; merged module tree from the JSON dump (winner per name), error class, 10 s timeout, `a::r` vs `a r`, sibling modules on one command line, every module-file location alone and in pairs.",
-    "note": "Partial: the override rule is proved as `minimal depth wins` over the depths the loader records; for files loaded along several paths the recorded depth is that of the last load (known findings c15-override-depth-of-last-load / c15-file-in-two-modules-runs-once, modelled faithfully). Loader termination is shown through the chain invariant, the fuel bound itself is not proved. Trusted: Lean kernel; Imports model (tied by the differential run).",
+    "text": "Lean theorems over the loader/merge model: every source that is ever loaded - for ANY file graph, cyclic or not, and any running time of the loader - has a repetition-free chain of files leading to it (a cyclic import or module chain is never followed) of length depth+1, hence nesting is bounded by the number of files; loader_terminates: on EVERY file graph (cyclic, dangling edges) the loop of Compiler::compile finishes within a bound depending only on the number of files and the largest number of items per file (weight W(N+1-chain length) per source; what a source pushes has longer repetition-free chains); a reference back into the chain is reported as circular for import and mod alike; missing optional edges are ignored and plain ones are errors; the duplicate-resolution table keeps each name exactly once with a definition of MINIMAL depth among all definitions processed (shallower wins) and every definition is represented; a module's recipes come only from files of its own import closure and every file of the closure contributes. Correspondence: random file graphs with 2-3 (quick) / 2-5 (thorough) files over import / import? / mod / mod? edges, self and mutual cycles, diamonds, edges to missing files, shared names in any file, allow-duplicate settings; merged module tree from the JSON dump (winner per name), error class, 10 s timeout, `a::r` vs `a r`, sibling modules on one command line, every module-file location alone and in pairs.",
+    "note": "Partial: the override rule is proved as `minimal depth wins` over the depths the loader records; for files loaded along several paths the recorded depth is that of the last load (known findings c15-override-depth-of-last-load / c15-file-in-two-modules-runs-once, modelled faithfully). Trusted: Lean kernel; Imports model (tied by the differential run).",
     "technique": "Lean 4 proof (loop invariants of the loader and of the override table) + random small-graph differential against the binary",
     "design": "4/C15",
 }
